@@ -4,6 +4,7 @@ import (
 	"go/ast"
 	"go/token"
 	"go/types"
+	"sort"
 )
 
 // Callee postconditions for the guard-facts analysis.
@@ -799,4 +800,57 @@ func (p *Program) recordPending(info *types.Info, n *Facts, st ast.Node) {
 			n.pend[key] = pendAtom{v: okID.Name, when: mode == "true", ra: relAtom{a.Op, x, y}, val: a.Val}
 		}
 	}
+}
+
+// resultConsts: the function has a single integer result and every return statement returns a constant: the set of
+// those constants (at most 8), nil otherwise.
+func (p *Program) resultConsts(callee *FuncInfo) []int64 {
+	if p.resConstsCache == nil {
+		p.resConstsCache = map[*FuncInfo][]int64{}
+	}
+	if v, ok := p.resConstsCache[callee]; ok {
+		return v
+	}
+	p.resConstsCache[callee] = nil
+	if callee.Decl.Body == nil || callee.Obj == nil {
+		return nil
+	}
+	sig := callee.Obj.Type().(*types.Signature)
+	if sig.Results().Len() != 1 {
+		return nil
+	}
+	if b, ok := sig.Results().At(0).Type().Underlying().(*types.Basic); !ok || b.Info()&types.IsInteger == 0 {
+		return nil
+	}
+	info := callee.Pkg.TypesInfo
+	set := map[int64]bool{}
+	ok := true
+	n := 0
+	inspectNoLit(callee.Decl.Body, func(x ast.Node) bool {
+		rs, isR := x.(*ast.ReturnStmt)
+		if !isR {
+			return true
+		}
+		n++
+		if len(rs.Results) != 1 {
+			ok = false
+			return true
+		}
+		if k, isK := constInt(info, ast.Unparen(rs.Results[0])); isK {
+			set[k] = true
+		} else {
+			ok = false
+		}
+		return true
+	})
+	if !ok || n == 0 || len(set) == 0 || len(set) > 8 {
+		return nil
+	}
+	var out []int64
+	for k := range set {
+		out = append(out, k)
+	}
+	sort.Slice(out, func(i, j int) bool { return out[i] < out[j] })
+	p.resConstsCache[callee] = out
+	return out
 }
